@@ -50,13 +50,35 @@ def _concrete(v):
     return v
 
 
+def _solve(v):
+    """value of a proxy that is determined by the assumptions of the current path (fresh symbols of an exact decomposition)"""
+    from . import sym
+    if not isinstance(v, sym.SymStr):
+        return v
+    c = sym.Ctx.cur
+    sol = z3.Solver()
+    sol.set("timeout", 10000)
+    for p in c.pc:
+        sol.add(p)
+    if sol.check() != z3.sat:
+        raise ValueError("path condition not satisfiable")
+    m = sol.model()
+    val = m.eval(v.t, model_completion=True)
+    # uniqueness: no other value is possible
+    sol.add(v.t != val)
+    if sol.check() != z3.unsat:
+        raise ValueError("decomposition not unique")
+    from .core import _decode_z3_string
+    return _decode_z3_string(val.as_string())
+
+
 def engine_crosscheck(seed=0):
     from . import loader  # noqa: F401  (instrumented import machinery, needed by the hooks)
     from . import sym, rewrite
     from .sym import SymStr, SymInt, Ctx
     rng = random.Random(seed)
     strings = ["", "a", "ab", "a b", "foo:bar", "x%sy", "%", "~2", "^", "\"p q\"", "  lead", "trail  ", "\\*", "a\\ b", "é", "TO", "a.b.c",
-               "0", "12", "-5", "1.50", "007", ".5", "1e3", "1E+2", "١٢", "1_0", " 7 ", "+3", "abc", "1.", ".", "1.2.3", "e5", "1e", "--1", "+.5e-3", "5-", "1e+"]
+               "and", "AND", "aNd", "ſtraſse", "STRASSE", "strasse", "ß", "SS", "ı", "I", "i", "K", "k", "é", "É", "0", "12", "-5", "1.50", "007", ".5", "1e3", "1E+2", "١٢", "1_0", " 7 ", "+3", "abc", "1.", ".", "1.2.3", "e5", "1e", "--1", "+.5e-3", "5-", "1e+"]
     ints = [-3, -1, 0, 1, 2, 5]
     bad = []
     n = 0
@@ -92,6 +114,18 @@ def engine_crosscheck(seed=0):
 
     for s in strings:
         both("len(%r)" % s, lambda: len(s), lambda: rewrite.vf_len(S_(s)))
+        both("%r.isspace()" % s, lambda: s.isspace(), lambda: S_(s).isspace())
+        for chars in (None, '"', " x", "ab"):
+            both("%r.strip(%r)" % (s, chars), lambda: s.strip(chars), lambda: _solve(S_(s).strip(chars)))
+            both("%r.lstrip(%r)" % (s, chars), lambda: s.lstrip(chars), lambda: _solve(S_(s).lstrip(chars)))
+            both("%r.rstrip(%r)" % (s, chars), lambda: s.rstrip(chars), lambda: _solve(S_(s).rstrip(chars)))
+        for sep in (".", ":", " ", "a"):
+            both("%r.partition(%r)" % (s, sep), lambda: s.partition(sep), lambda: tuple(_solve(x) for x in S_(s).partition(sep)))
+            both("%r.rpartition(%r)" % (s, sep), lambda: s.rpartition(sep), lambda: tuple(_solve(x) for x in S_(s).rpartition(sep)))
+            both("%r.rsplit(%r, 1)" % (s, sep), lambda: s.rsplit(sep, 1), lambda: [_solve(x) for x in S_(s).rsplit(sep, 1)])
+            both("%r.split(%r, 1)" % (s, sep), lambda: s.split(sep, 1), lambda: [_solve(x) for x in S_(s).split(sep, 1)])
+            both("%r.find(%r)" % (s, sep), lambda: s.find(sep), lambda: S_(s).find(sep))
+        both("%r.upper() in table" % s, lambda: {"AND": 1, "OR": 2, "TO": 3}.get(s.upper(), 0), lambda: rewrite.vf_get({"AND": 1, "OR": 2, "TO": 3}, S_(s).upper(), 0))
         both("str(%r)" % s, lambda: str(s), lambda: rewrite.vf_str(S_(s)))
         both("%r or ''" % s, lambda: s or "", lambda: rewrite.vf_or_const(S_(s), ""))
         both("'%%s:%%s' %% (%r, 1)" % s, lambda: "%s:%s" % (s, 1), lambda: rewrite.vf_mod("%s:%s", (S_(s), 1)))
@@ -116,6 +150,8 @@ def engine_crosscheck(seed=0):
             both("%r in %r" % (t, s), lambda: t in s, lambda: rewrite.vf_in(S_(t), S_(s)))
             both("%r in (%r, 'TO')" % (s, t), lambda: s in (t, "TO"), lambda: rewrite.vf_in(S_(s), (t, "TO")))
             both("'.'.join([%r, %r])" % (s, t), lambda: ".".join([s, t]), lambda: rewrite.vf_join(".", [S_(s), t]))
+            both("%r.upper() == %r" % (s, t), lambda: s.upper() == t, lambda: S_(s).upper() == t)
+            both("%r.lower() == %r" % (s, t), lambda: s.lower() == t, lambda: S_(s).lower() == t)
             both("%r.join([%r, %r])" % (t, s, s), lambda: t.join([s, s]), lambda: rewrite.vf_join(S_(t), [S_(s), s]))
     for a, b in itertools.product(ints, ints):
         A, B = SymInt(z3.IntVal(a)), SymInt(z3.IntVal(b))
